@@ -52,7 +52,7 @@ Definition dexec_post (v v' : vam) (run' : option dfrun) (r : out unit) : Prop :
   match r with PANIC | STUCK => True | _ => VamInv c v' /\ drun_ok v' run' /\ zlen (v_tab v) <= zlen (v_tab v') end.
 
 Lemma dexec_inv v run o :
-  VamInv c v -> GV v -> drun_ok v run -> dop_ok v run o ->
+  VamInv c v -> GV c v -> drun_ok v run -> dop_ok v run o ->
   let '(v', run', r, dr) := dexec c v run o in dexec_post v v' run' r.
 Proof.
   intros HI HV Hr Hok. destruct o as [flags pool mb ma| |ds|]; cbn [dexec].
@@ -89,8 +89,8 @@ Qed.
 
 (* the granularity bookkeeping through one defragmentation call *)
 Lemma dexec_G v run o :
-  VamInv c v -> GV v -> drun_ok v run -> dop_ok v run o ->
-  let '(v', run', r, dr) := dexec c v run o in match r with PANIC | STUCK => True | _ => GV v' end.
+  VamInv c v -> GV c v -> drun_ok v run -> dop_ok v run o ->
+  let '(v', run', r, dr) := dexec c v run o in match r with PANIC | STUCK => True | _ => GV c v' end.
 Proof.
   intros HI HV Hr Hok. destruct o as [flags pool mb ma| |ds|]; cbn [dexec].
   - pose proof (defrag_begin_G c v flags pool mb ma HV) as P. destruct (defrag_begin c v flags pool mb ma) as (v1 & r). destruct r; exact P || exact I.
@@ -101,7 +101,7 @@ Proof.
   - destruct run as [rn|]; [|exact I].
     pose proof (defrag_end_inv c v rn ds HI Hr) as P0. pose proof (defrag_end_G c v rn ds HI Hr HV) as P.
     destruct (defrag_end c v rn ds) as ((v1 & rn') & r). destruct r as [b|code| |]; try exact I; [exact P|contradiction].
-  - destruct run as [rn|]; [|exact I]. pose proof (defrag_finish_G v rn HV) as P. destruct (defrag_finish v rn) as (v1 & st). exact P.
+  - destruct run as [rn|]; [|exact I]. pose proof (defrag_finish_G c v rn HV) as P. destruct (defrag_finish v rn) as (v1 & st). exact P.
 Qed.
 
 Lemma run_ok_set_m v m run : run_ok v run -> run_ok (set_m v m) run.
@@ -109,7 +109,7 @@ Proof. apply run_ok_grown. split; [cbn; lia|intros; reflexivity]. Qed.
 
 (* one defragmentation call, any fault oracle *)
 Theorem dstep_preserves v run o f :
-  VamInv c v -> GV v -> drun_ok v run -> dop_ok v run o ->
+  VamInv c v -> GV c v -> drun_ok v run -> dop_ok v run o ->
   let '(v', run', r, calls, dr) := dstep c v run o f in
   r <> RPanic -> r <> RStuck -> VamInv c v' /\ drun_ok v' run' /\ zlen (v_tab v) <= zlen (v_tab v').
 Proof.
@@ -120,15 +120,15 @@ Proof.
   assert (Hr0 : drun_ok v0 run) by (destruct run as [rn|]; [apply run_ok_set_m; exact Hr|exact I]).
   assert (Hok0 : dop_ok v0 run o).
   { destruct o; cbn in *; auto. }
-  pose proof (dexec_inv v0 run o I0 (GR_set_m v _ HV) Hr0 Hok0) as E. destruct (dexec c v0 run o) as (((v1 & run1) & r) & dr).
+  pose proof (dexec_inv v0 run o I0 (GR_set_m c v _ HV) Hr0 Hok0) as E. destruct (dexec c v0 run o) as (((v1 & run1) & r) & dr).
   intros Hp Hs. destruct r as [[]|code| |]; cbn in Hp, Hs; try congruence; cbn in E; destruct E as (A & B & C);
     (split; [unfold VamInv; apply VamInvU_mach_same; [exact A|split; cbn; [apply mems_same_refl|lia]]|];
      split; [destruct run1 as [rn1|]; [apply run_ok_set_m; exact B|exact I]|exact C]).
 Qed.
 
 Theorem dstep_G v run o f :
-  VamInv c v -> GV v -> drun_ok v run -> dop_ok v run o ->
-  let '(v', run', r, calls, dr) := dstep c v run o f in r <> RPanic -> r <> RStuck -> GV v'.
+  VamInv c v -> GV c v -> drun_ok v run -> dop_ok v run o ->
+  let '(v', run', r, calls, dr) := dstep c v run o f in r <> RPanic -> r <> RStuck -> GV c v'.
 Proof.
   intros HI HV Hr Hok. unfold dstep.
   set (v0 := set_m v (clear_calls (set_fault (v_m v) f 0))).
@@ -136,17 +136,17 @@ Proof.
   { unfold v0, VamInv. apply VamInvU_mach_same; [exact HI|]. split; cbn; [apply mems_same_refl|lia]. }
   assert (Hr0 : drun_ok v0 run) by (destruct run as [rn|]; [apply run_ok_set_m; exact Hr|exact I]).
   assert (Hok0 : dop_ok v0 run o) by (destruct o; cbn in *; auto).
-  pose proof (dexec_G v0 run o I0 (GR_set_m v _ HV) Hr0 Hok0) as E. destruct (dexec c v0 run o) as (((v1 & run1) & r) & dr).
+  pose proof (dexec_G v0 run o I0 (GR_set_m c v _ HV) Hr0 Hok0) as E. destruct (dexec c v0 run o) as (((v1 & run1) & r) & dr).
   intros Hp Hs. destruct r as [[]|code| |]; cbn in Hp, Hs; try congruence; apply GR_set_m; exact E.
 Qed.
 
 (* an ordinary API call *)
-Theorem step_G v o f : VamInv c v -> GV v -> GV (fst (fst (step c v o f))).
+Theorem step_G v o f : VamInv c v -> GV c v -> GV c (fst (fst (step c v o f))).
 Proof.
   intros HI HV. unfold step. set (v0 := set_m v (clear_calls (set_fault (v_m v) f 0))).
   assert (I0 : VamInv c v0).
   { unfold v0, VamInv. apply VamInvU_mach_same; [exact HI|]. split; cbn; [apply mems_same_refl|lia]. }
-  pose proof (exec_G c Hc v0 o I0 (GR_set_m v _ HV)) as E. destruct (exec c v0 o) as (v1 & r). cbn [fst] in *. apply GR_set_m. exact E.
+  pose proof (exec_G c Hc v0 o I0 (GR_set_m c v _ HV)) as E. destruct (exec c v0 o) as (v1 & r). cbn [fst] in *. apply GR_set_m. exact E.
 Qed.
 
 (* the Allocation objects of the pending moves (sources and temporaries) of an open pass *)
@@ -193,7 +193,7 @@ Inductive reachD : vam -> option dfrun -> Prop :=
     reachD v run -> dop_ok v run o -> dstep c v run o f = (v', run', r, calls, dr) -> r <> RPanic -> r <> RStuck ->
     reachD v' run'.
 
-Theorem reachD_inv_gv v run : reachD v run -> (VamInv c v /\ drun_ok v run) /\ GV v.
+Theorem reachD_inv_gv v run : reachD v run -> (VamInv c v /\ drun_ok v run) /\ GV c v.
 Proof.
   intros R. induction R as [nslots v H|v run o f v' r calls R IH Hav Hok Hs Hp Hk|v run o f v' run' r calls dr R IH Hok Hs Hp Hk].
   - split; [split; [eapply vam_new_inv; eauto|exact I]|eapply vam_new_G; eauto].
@@ -209,7 +209,7 @@ Theorem reachD_inv v run : reachD v run -> VamInv c v /\ drun_ok v run.
 Proof. intros R. apply (reachD_inv_gv v run R). Qed.
 
 (* the granularity bookkeeping of every TLSF block is sound in every state of every history *)
-Theorem reachD_gv v run : reachD v run -> GV v.
+Theorem reachD_gv v run : reachD v run -> GV c v.
 Proof. intros R. apply (reachD_inv_gv v run R). Qed.
 
 (* the domain condition of BeginDefragPass is "no pass is open" (kept under its name from when granularity 1 was required) *)
